@@ -245,6 +245,15 @@ func genC07(r *R, sc *Scenario, tier string) {
 		}
 		p.DependsOn[Pick(r, "ghost", "g9", "G0")] = "process_started"
 	}
+	if cyc, _ := c07Cycle(spec); cyc && r.P(600) {
+		// a cycle is a cycle, whoever is on it: also among processes that are not started by themselves
+		pd := Pick(r, 300, 600, 1000)
+		for _, p := range spec.Procs {
+			if r.P(pd) {
+				p.Disabled = true
+			}
+		}
+	}
 	if cyc, _ := c07Cycle(spec); !cyc && c07Dangling(spec) == "" {
 		dependents := func(name string) []string {
 			var r []string
